@@ -87,6 +87,21 @@ COMPOSITES = {
                                   V("r", U8)])), V("b", U8)])), TAIL]},
     "nested-bytesize": {"params": [SID, V("pre", U8), V("outer", S([
         V("a", U8), V("inner", S([V("p", U8)], byte_size=2)), V("b", U8)], byte_size=6)), TAIL]},
+    # explicitly positioned siblings behind a nested object that does not start at offset 0: the
+    # positions are relative to the ENCLOSING object again
+    "structure-then-positioned": {"params": [SID, V("st", S([V("a", U8), V("b", U8)])),
+                                             V("post", U8, bytepos=3), C("end", 0x5A, bytepos=4)]},
+    "static-field-then-positioned": {"params": [SID, V("f", dict(
+        complex="staticfield", count=2, item_byte_size=2,
+        structure=dict(params=[V("x", U8), V("y", U8)]))), V("a", U8, bytepos=5), V("b", U8, bytepos=6)]},
+    "static-field-behind-positioned": {"params": [SID, V("a", U8, bytepos=1), V("f", dict(
+        complex="staticfield", count=2, item_byte_size=1,
+        structure=dict(params=[V("x", U8)])), bytepos=2), V("b", U8, bytepos=1, bitpos=0)][:3] + [TAIL]},
+    # terminated items of a field that ends the PDU: only the LAST item is at the end of the PDU
+    "static-field-minmax-last": {"params": [SID, V("f", dict(
+        complex="staticfield", count=2, item_byte_size=4,
+        structure=dict(params=[V("d", dict(dt="A_BYTEFIELD", dct="minmax", min=0, max=3,
+                                           term="HEX-FF"))])))], "blens": [0, 1, 3]},
     "static-field": {"params": [SID, V("f", dict(complex="staticfield", count=2, item_byte_size=3,
                                                  structure=dict(params=[V("x", U8), V("y", U8)]))),
                                 TAIL]},
@@ -139,7 +154,7 @@ COMPOSITES = {
         "cases": ["c1", "c2"]},
     "length-key": {"params": [SID, dict(kind="lengthkey", name="lk", id="LK1", dop=U8),
                               V("data", dict(dt="A_UINT32", dct="paramlen", length_key="LK1")), TAIL],
-                   "lengths": [8, 16, 24]},
+                   "lengths": [0, 8, 16, 24]},
     # a key is the right-most parameter of a nested structure; what follows is placed by the cursor
     "length-key-ends-structure": {"params": [SID, V("st", S([
         V("x", U8), dict(kind="lengthkey", name="lk", id="LK5", dop=U8)])),
@@ -655,10 +670,24 @@ def require_same(sx, got, want, label, path=""):
 # ---------------------------------------------------------------------------
 # harness
 # ---------------------------------------------------------------------------
+# descriptions used by single harnesses only (not part of the common catalogue)
+EXTRA_REQUESTS = {
+    # the end-marker DOP does not accept every internal value (a text table over 128..255):
+    # probing an item whose first byte is below 128 is a decode error in strict mode and a warning
+    # in lenient mode; the field is the last object and ends with the PDU
+    "endmarker-field-limited-end-dop": {"params": [SID, V("f", dict(
+        complex="endmarkerfield",
+        end_dop=dict(dt="A_UINT32", bl=8, ptype="A_UNICODE2STRING",
+                     cm={"cat": "TEXTTABLE", "scales": [{"lo": 255, "hi": 255, "const": "end"},
+                                                        {"lo": 128, "hi": 254, "const": "more"}]}),
+        end_value=255, structure=dict(params=[V("x", U8)])))]},
+}
+
+
 def build_composite(cfg):
     import odxtools.request  # noqa
     import odxtools.isotp_state_machine  # noqa
-    spec = (COMPOSITES if cfg["what"] == "request" else
+    spec = ({**COMPOSITES, **EXTRA_REQUESTS} if cfg["what"] == "request" else
             {**RESPONSES, **DECODE_ONLY_RESPONSES})[cfg["name"]]
     b = build.Builder()
     obj = b.request(spec) if cfg["what"] == "request" else b.response(spec)
